@@ -47,6 +47,24 @@ def main() -> int:
             mod.replay(out, json.loads(Path(a.replay).read_text()))
         else:
             mod.run(out)
+        # The tie between model and code is broken but the property's own oracle found nothing: search harder for a failing input on the
+        # implementation (thorough budget, other seeds) before reporting `no-failing-input-found` (DESIGN §4 step 3).
+        if out.mismatches and not out.violations and not a.replay and a.tier == "quick" and not os.environ.get("VERIF_NO_SEARCH"):
+            for extra in (1, 2):
+                srch = Outcome(prop, "thorough", seed + 1000 * extra)
+                srch.findings = out.findings
+                try:
+                    mod.run(srch)
+                except Exception:  # noqa: BLE001
+                    break
+                out.evaluations += srch.evaluations
+                out.nontrivial |= srch.nontrivial
+                out.stats["failing_input_search_runs"] = extra
+                if srch.violations:
+                    out.violations.extend(srch.violations)
+                    break
+                if time.time() - t0 > 900:
+                    break
     except Infra as e:
         print(f"INFRA-FAILURE property={prop}: {e}")
         return 2
